@@ -72,9 +72,9 @@ Record BInv (gens : list nat) (s : bstate) : Prop := mkBInv {
   i_acts : map snd (acts s) = rev (seq 0 (bG s))
 }.
 
-Lemma BInv_init : forall gens, 1 <= length gens -> BInv gens (binit (length gens) gens).
+Lemma BInv_init : forall sil gens, 1 <= length gens -> BInv gens (binit (length gens) sil gens).
 Proof.
-  intros gens Hn. constructor; cbn.
+  intros sil gens Hn. constructor; cbn.
   - reflexivity.
   - exact Hn.
   - lia.
@@ -159,6 +159,33 @@ Proof.
     + destruct (Isl u Hu) as (P1 & P2). upd_case u t; [congruence|]. split; auto.
       destruct P2 as [P2|(v & Hv1 & Hv2)]; auto. exfalso.
       assert (bowner s = Some t) by (apply Ot; reflexivity). congruence.
+  (* --- BLocked / ONotifyAll: the last arriver of a generation crossed without lambda *)
+  - apply flip_lt.
+  - now rewrite upd_same.
+  - constructor.
+  - pose proof (all_arrived s t Ind Iarr Icnt Ilt Heqb Heqb0 Ht) as PG.
+    intros u. split; [tauto|]. intros (Hu & Hw & Hc). upd_case u t; cbn in *; [discriminate|].
+    apply PG in Hu; auto. apply Iarr in Hu. destruct Hu as (_ & _ & Hu). rewrite Hu in Hc.
+    symmetry in Hc. now apply flip_neq in Hc.
+  - pose proof (all_arrived s t Ind Iarr Icnt Ilt Heqb Heqb0 Ht) as PG.
+    intros u Hu. specialize (Ithr u Hu). unfold tinv in *. cbn. upd_case u t; cbn.
+    + rewrite flip_flip by auto. rewrite upd_other by (intros Hc; symmetry in Hc; now apply flip_neq in Hc).
+      rewrite upd_same. repeat split; try tauto; try lia.
+    + specialize (PG u Hu n). apply Iarr in PG. destruct PG as (_ & Hw & Hc).
+      destruct Ithr as (K1 & K2). split; auto.
+      destruct (bpc (bthr s u)); cbn in Hw; try discriminate.
+      * destruct K2 as (L1 & [(C1 & C2)|(C1 & C2 & C3)]).
+        -- split; auto. right. rewrite flip_flip by auto. repeat split; auto; try lia.
+           rewrite C1. rewrite upd_other by (intros Hx; symmetry in Hx; now apply flip_neq in Hx).
+           rewrite upd_same. lia.
+        -- exfalso. rewrite Hc in C1. symmetry in C1. now apply flip_neq in C1.
+      * destruct K2 as (L1 & [(C1 & C2)|(C1 & C2 & C3)]).
+        -- split; auto. right. rewrite flip_flip by auto. repeat split; auto; try lia.
+           rewrite C1. rewrite upd_other by (intros Hx; symmetry in Hx; now apply flip_neq in Hx).
+           rewrite upd_same. lia.
+        -- exfalso. rewrite Hc in C1. symmetry in C1. now apply flip_neq in C1.
+  - rewrite Iacts. destruct Tt as (_ & Tg & _). rewrite Tg.
+    replace (bG s + 1) with (S (bG s)) by lia. rewrite seq_S, rev_app_distr. reflexivity.
   (* --- BLocked / OAct: the last arriver *)
   - apply flip_lt.
   - now rewrite upd_same.
@@ -208,10 +235,10 @@ Proof.
     assert (bowner s = Some t) by (apply Ot; reflexivity). congruence.
 Qed.
 
-Lemma BInv_reachable : forall spur gens s,
-  1 <= length gens -> breachable spur (length gens) gens s -> BInv gens s.
+Lemma BInv_reachable : forall spur sil gens s,
+  1 <= length gens -> breachable spur (length gens) sil gens s -> BInv gens s.
 Proof.
-  intros spur gens s Hn (tr & H). revert H. unfold brun.
+  intros spur sil gens s Hn (tr & H). revert H. unfold brun.
   apply (run_invariant (bstep spur) (BInv gens)).
   - intros; eapply BInv_step; eauto.
   - now apply BInv_init.
@@ -230,13 +257,13 @@ Definition bentered (s : bstate) (u g : nat) : Prop :=
   g < gen (bthr s u) \/ (gen (bthr s u) = g /\ binside s u).
 
 (** No thread leaves generation g before all participants have entered (arrived in) it. *)
-Theorem bm_no_early_exit : forall spur gens s t u g,
-  1 <= length gens -> breachable spur (length gens) gens s ->
+Theorem bm_no_early_exit : forall spur sil gens s t u g,
+  1 <= length gens -> breachable spur (length gens) sil gens s ->
   t < length gens -> u < length gens ->
   g < gen (bthr s t) -> bentered s u g.
 Proof.
-  intros spur gens s t u g Hn R Ht Hu Hg.
-  pose proof (BInv_reachable _ _ _ Hn R) as I.
+  intros spur sil gens s t u g Hn R Ht Hu Hg.
+  pose proof (BInv_reachable _ _ _ _ Hn R) as I.
   rewrite <- (i_n _ _ I) in Ht, Hu.
   destruct (gen_window _ _ _ I Ht) as [Et|(Et & _)];
   destruct (gen_window _ _ _ I Hu) as [Eu|(Eu & Iu)]; unfold bentered; try lia.
@@ -245,13 +272,13 @@ Qed.
 
 (** The action has run exactly once for each completed generation, in order, and never for a generation that
     is not complete; a thread that has left generation g finds the action of g already run. *)
-Theorem bm_action_once_before_release : forall spur gens s,
-  1 <= length gens -> breachable spur (length gens) gens s ->
+Theorem bm_action_once_before_release : forall spur sil gens s,
+  1 <= length gens -> breachable spur (length gens) sil gens s ->
   map snd (acts s) = rev (seq 0 (bG s)) /\
   (forall g, count_occ Nat.eq_dec (map snd (acts s)) g = if g <? bG s then 1 else 0) /\
   (forall t g, t < length gens -> g < gen (bthr s t) -> In g (map snd (acts s))).
 Proof.
-  intros spur gens s Hn R. pose proof (BInv_reachable _ _ _ Hn R) as I.
+  intros spur sil gens s Hn R. pose proof (BInv_reachable _ _ _ _ Hn R) as I.
   pose proof (i_acts _ _ I) as A. split; [exact A|]. split.
   - intros g. rewrite A. clear. induction (bG s) as [|k IH].
     + reflexivity.
@@ -270,21 +297,22 @@ Qed.
 (** The action is run by the last arriver: when thread t runs it (for generation g), every other participant
     has arrived in generation g and is blocked inside wait(), t itself is counted by this very event, nobody
     has left generation g, and the action of g has not run before. *)
-Theorem bm_action_by_last : forall spur gens s t g s',
-  1 <= length gens -> breachable spur (length gens) gens s ->
+Theorem bm_action_by_last : forall spur sil gens s t g s',
+  1 <= length gens -> breachable spur (length gens) sil gens s ->
   bstep spur s (t, OAct g) = Some s' ->
   g = gen (bthr s t) /\ g = bG s /\ ~ In t (arrived s) /\
   (forall u, u < length gens -> u <> t -> In u (arrived s) /\ binside s u /\ gen (bthr s u) = g) /\
   (forall u, u < length gens -> gen (bthr s u) <= g) /\
   ~ In g (map snd (acts s)) /\ acts s' = (t, g) :: acts s.
 Proof.
-  intros spur gens s t g s' Hn R H. pose proof (BInv_reachable _ _ _ Hn R) as I.
+  intros spur sil gens s t g s' Hn R H. pose proof (BInv_reachable _ _ _ _ Hn R) as I.
   destruct I as [In_ In1 Istp Icnt Ilt Ind Iarr Ithr Iab Iown Isl Iacts].
   destruct (Nat.lt_ge_cases t (bn s)) as [Ht|Ht].
   2: { unfold bstep in H. rewrite (Iab t Ht) in H. discriminate. }
   pose proof (Ithr t Ht) as Tt. unfold tinv in Tt.
   unfold bstep in H. destruct (bpc (bthr s t)) eqn:Hpc; try discriminate.
   destruct (cnt s (stp s) + 1 <? bn s) eqn:E; try discriminate.
+  destruct (bsil s (gen (bthr s t))) eqn:Esil; try discriminate.
   destruct (g =? gen (bthr s t)) eqn:Eg; try discriminate.
   inversion H; subst; clear H. boolprops. cbn.
   pose proof (all_arrived s t Ind Iarr Icnt Ilt Hpc E Ht) as PG.
@@ -317,7 +345,9 @@ Proof.
   destruct (bpc (bthr s v)) eqn:Hpc; cbn in Ho; try discriminate.
   - destruct (cnt s (stp s) + 1 <? bn s) eqn:E.
     + exists OWaitB. unfold bstep. rewrite Hpc, E. eauto.
-    + exists (OAct (gen (bthr s v))). unfold bstep. rewrite Hpc, E, Nat.eqb_refl. eauto.
+    + destruct (bsil s (gen (bthr s v))) eqn:Es.
+      * exists ONotifyAll. unfold bstep. rewrite Hpc, E, Es. eauto.
+      * exists (OAct (gen (bthr s v))). unfold bstep. rewrite Hpc, E, Es, Nat.eqb_refl. eauto.
   - destruct (cnt s (cur (bthr s v)) <? bn s) eqn:E.
     + exists OWaitB. unfold bstep. rewrite Hpc, E. eauto.
     + exists OUnlock. unfold bstep. rewrite Hpc, E. eauto.
@@ -328,14 +358,14 @@ Qed.
 (** In the semantics without spurious wake-ups: if all n participants cross the barrier K times, the only
     reachable rest state is the one where every participant has completed all K generations -- for every
     n >= 1 and every K (the barrier is reusable; no wake-up is lost, no generation is overtaken). *)
-Theorem bm_reusable : forall n K s t,
-  1 <= n -> breachable false n (repeat K n) s -> bquiescent false s -> t < n ->
+Theorem bm_reusable : forall n sil K s t,
+  1 <= n -> breachable false n sil (repeat K n) s -> bquiescent false s -> t < n ->
   bpc (bthr s t) = BDone /\ gen (bthr s t) = K.
 Proof.
-  intros n K s t Hn R Q Ht.
+  intros n sil K s t Hn R Q Ht.
   assert (Hl : length (repeat K n) = n) by apply repeat_length.
   rewrite <- Hl in R at 1. rewrite <- Hl in Hn.
-  pose proof (BInv_reachable _ _ _ Hn R) as I. rewrite Hl in Hn.
+  pose proof (BInv_reachable _ _ _ _ Hn R) as I. rewrite Hl in Hn.
   assert (Hbn : bn s = n) by (rewrite (i_n _ _ I); exact Hl).
   (* A: the mutex is free *)
   assert (Ho : bowner s = None).
@@ -408,12 +438,12 @@ Definition bm_example_trace : list event :=
     (1, OOut 0); (0, OWaitE false); (0, OUnlock); (0, OOut 0); (0, OIn 1); (0, OLock); (0, OWaitB) ].
 
 Lemma bm_example_aux : forall r : option bstate,
-  r = brun false (binit 2 [2; 2]) bm_example_trace ->
+  r = brun false (binit 2 (fun _ => false) [2; 2]) bm_example_trace ->
   match r with
   | Some s => (bG s =? 1) && bsleepb s 0 && (gen (bthr s 1) =? 1) && (length (acts s) =? 1)
   | None => false
   end = true ->
-  exists s, breachable false 2 [2; 2] s /\ bG s = 1 /\ bpc (bthr s 0) = BSleep /\ gen (bthr s 1) = 1.
+  exists s, breachable false 2 (fun _ => false) [2; 2] s /\ bG s = 1 /\ bpc (bthr s 0) = BSleep /\ gen (bthr s 1) = 1.
 Proof.
   intros r R E. destruct r as [s|]; [|discriminate E]. symmetry in R.
   apply andb_prop in E. destruct E as [E E4]. apply andb_prop in E. destruct E as [E E3].
@@ -424,5 +454,5 @@ Proof.
 Qed.
 
 Example bm_reachable_nontrivial :
-  exists s, breachable false 2 [2; 2] s /\ bG s = 1 /\ bpc (bthr s 0) = BSleep /\ gen (bthr s 1) = 1.
+  exists s, breachable false 2 (fun _ => false) [2; 2] s /\ bG s = 1 /\ bpc (bthr s 0) = BSleep /\ gen (bthr s 1) = 1.
 Proof. apply (bm_example_aux _ eq_refl). vm_compute. reflexivity. Qed.
